@@ -75,8 +75,23 @@ def main():
     for _ in range(reps * 4):
         n = rng.randint(1, 3)
         c = QuantumCircuit(n)
-        for _ in range(rng.randint(1, 8)):
-            c.add_gate(rand_gate(rng, npr, n, good_vocab))
+        if rng.random() < 0.35:
+            # Trotter-like steps: gates that agree on name, qubits and angle and differ only in their Pauli ids or in their
+            # matrix (exp(-i t XX) exp(-i t YY) exp(-i t ZZ), two different UnitaryMatrix gates on the same targets)
+            from quri_parts.circuit import gates as _G
+            tq = rng.sample(range(n), rng.randint(1, n))
+            th = O.rand_angle(rng)
+            for _ in range(rng.randint(2, 5)):
+                r = rng.random()
+                if r < 0.6:
+                    c.add_gate(_G.PauliRotation(tq, [rng.randint(1, 3) for _ in tq], th))
+                elif r < 0.8 and len(tq) <= 2:
+                    c.add_gate(_G.UnitaryMatrix(tq, O.random_unitary(npr, 2 ** len(tq)).tolist()))
+                else:
+                    c.add_gate(rand_gate(rng, npr, n, good_vocab))
+        else:
+            for _ in range(rng.randint(1, 8)):
+                c.add_gate(rand_gate(rng, npr, n, good_vocab))
         sf = rng.choice([1, 1.0, 1.5, 2, 2.5, 2.9, 3, 3.0, 4.2, 5.0, 7.3, rng.uniform(1, 8)])
         mname = rng.choice(sorted(methods))
         idx = methods[mname](c, sf)
